@@ -384,20 +384,74 @@ func (x *runner) image(d int64, j int) {
 			lastIdx = "write"
 		}
 	}
-	endNext := x.end[n]
-	if j < n {
-		endNext = x.end[j+1]
+	kindOfOp := func(i int) string { // i is 1-based
+		o := x.h.Ops[i-1]
+		switch {
+		case o.Kind == "D":
+			return "tombstone"
+		case o.Size == 0:
+			return "empty-write"
+		}
+		return "write"
 	}
-	tail := tailClass(d, x.end[j], endNext)
-	tailFine := "exact"
-	switch {
-	case d == x.end[j]:
-	case d < endNext:
-		tailFine = "torn-next-record"
-	case d == x.end[mfull]:
-		tailFine = "whole-extra-records"
-	default:
-		tailFine = "extra-records-and-torn"
+	// order: "write-order" (j <= m, the quantifier's images) or "index-ahead" (j > m: the
+	// index kept more entries than the data file has complete records; allowed by the
+	// statement's "both files keep any prefix", its own image class in every signature)
+	order := "write-order"
+	aheadTombstone := "false"
+	creditNext := false // record m+1 is in the file up to and including its checksum
+	var tail, tailFine string
+	if j <= mfull {
+		endNext := x.end[n]
+		if j < n {
+			endNext = x.end[j+1]
+		}
+		tail = tailClass(d, x.end[j], endNext)
+		tailFine = "exact"
+		switch {
+		case d == x.end[j]:
+		case d < endNext:
+			tailFine = "torn-next-record"
+		case d == x.end[mfull]:
+			tailFine = "whole-extra-records"
+		default:
+			tailFine = "extra-records-and-torn"
+		}
+	} else {
+		order = "index-ahead"
+		for i := mfull + 1; i <= j; i++ {
+			if kindOfOp(i) == "tombstone" {
+				aheadTombstone = "true"
+			}
+		}
+		rel := d - x.end[mfull]
+		var sz int64
+		if hdr := x.dat[x.end[mfull]:]; len(hdr) >= 16 {
+			sz = int64(int32(uint32(hdr[12])<<24 | uint32(hdr[13])<<16 | uint32(hdr[14])<<8 | uint32(hdr[15])))
+		}
+		switch {
+		case rel == 0:
+			tailFine = "record-missing"
+		case rel < 16:
+			tailFine = "cut-in-header"
+		case rel < 16+sz+4:
+			tailFine = "cut-in-body"
+		case rel < 16+sz+4+8:
+			tailFine = "cut-in-timestamp"
+			creditNext = true
+		default:
+			tailFine = "cut-in-padding"
+			creditNext = true
+		}
+		tail = tailFine
+	}
+	loadSig := func(op, class string) lib.Sig {
+		sg := lib.Sig{"op": op, "class": class, "order": order, "last_idx": lastIdx, "dat_tail": tail}
+		if order == "index-ahead" {
+			sg["ahead_tombstone"] = aheadTombstone
+			sg["first_ahead"] = kindOfOp(mfull + 1)
+		}
+		return sg
 	}
 	detail := func(extra map[string]interface{}) map[string]interface{} {
 		extra["history"] = x.h
@@ -406,11 +460,18 @@ func (x *runner) image(d int64, j int) {
 		extra["record_ends"] = x.end
 		extra["last_idx_entry"] = lastIdx
 		extra["dat_tail"] = tailFine
+		extra["order"] = order
+		extra["complete_records"] = mfull
 		return extra
 	}
 	r.Case(map[string]interface{}{"history": x.h, "d": d, "j": j})
 	r.Count("crash_images", 1)
-	r.Count("images.last_idx="+lastIdx+",tail="+tailFine, 1)
+	if order == "index-ahead" {
+		r.Count("index_ahead_images", 1)
+		r.Count("ahead.first="+kindOfOp(mfull+1)+",cut="+tailFine, 1)
+	} else {
+		r.Count("images.last_idx="+lastIdx+",tail="+tailFine, 1)
+	}
 	if !(d == x.end[n] && j == n) {
 		r.Nontrivial(fmt.Sprintf("h%d/%s/d%d/j%d", x.h.Index, x.h.Map, d, j))
 	}
@@ -428,8 +489,7 @@ func (x *runner) image(d int64, j int) {
 	r.Eval(1)
 	v := x.store.GetVolume(1)
 	if err != nil || v == nil {
-		r.Violation(lib.Sig{"op": "load", "class": "load-failed", "last_idx": lastIdx, "dat_tail": tail, "map": x.h.Map},
-			detail(map[string]interface{}{"error": fmt.Sprint(err)}))
+		r.Violation(loadSig("load", "load-failed"), detail(map[string]interface{}{"error": fmt.Sprint(err), "map": x.h.Map}))
 		x.cleanupVolume()
 		return
 	}
@@ -437,20 +497,36 @@ func (x *runner) image(d int64, j int) {
 	readonly := v.IsReadOnly()
 	r.Eval(1)
 	if readonly {
-		r.Violation(lib.Sig{"op": "load", "class": "readonly-after-crash", "last_idx": lastIdx, "dat_tail": tail},
-			detail(map[string]interface{}{"map": x.h.Map}))
+		r.Violation(loadSig("load", "readonly-after-crash"), detail(map[string]interface{}{"map": x.h.Map}))
 		r.Count("images_readonly", 1)
+		if order == "index-ahead" {
+			r.Count("index_ahead_images_readonly", 1)
+		}
 	} else {
 		r.Count("images_loaded_writable", 1)
 	}
 
 	// 2. reads against the model
+	cut := "-"
+	touchedAhead := map[int]bool{}
+	if order == "index-ahead" {
+		cut = tailFine
+		for i := mfull + 1; i <= j; i++ {
+			touchedAhead[x.h.Ops[i-1].K] = true
+		}
+	}
 	answers := map[int]answer{}
 	keys := append(append([]int{}, x.keys...), 9) // 9 is never written
 	for _, k := range keys {
 		a := x.read(k)
 		answers[k] = a
-		x.judgeRead(k, a, j, mfull, "after-load", detail)
+		if readonly && order == "index-ahead" && touchedAhead[k] {
+			// the read-only verdict above already says the index was not repaired; what the
+			// dangling entries of the in-flight ops answer is its consequence, not judged again
+			r.Count("reads_not_judged_on_readonly_index_ahead_volume", 1)
+			continue
+		}
+		x.judgeRead(k, a, j, mfull, creditNext, order, cut, "after-load", detail)
 	}
 	if readonly {
 		return // the write part would only repeat the read-only verdict
@@ -462,7 +538,7 @@ func (x *runner) image(d int64, j int) {
 	_, werr := x.store.WriteVolumeNeedle(1, lib.MakeNeedle(nb, uint64(time.Now().Unix())), false)
 	r.Eval(1)
 	if werr != nil {
-		r.Violation(lib.Sig{"op": "write-after-crash", "class": "rejected", "target": "new-key", "last_idx": lastIdx, "dat_tail": tail},
+		r.Violation(lib.Sig{"op": "write-after-crash", "class": "rejected", "target": "new-key", "order": order, "last_idx": lastIdx, "dat_tail": tail},
 			detail(map[string]interface{}{"error": werr.Error()}))
 	} else {
 		answers[nk] = answer{class: "ok", data: nb.Data}
@@ -480,7 +556,7 @@ func (x *runner) image(d int64, j int) {
 		_, oerr := x.store.WriteVolumeNeedle(1, lib.MakeNeedle(ob, uint64(time.Now().Unix())), false)
 		r.Eval(1)
 		if oerr != nil {
-			r.Violation(lib.Sig{"op": "write-after-crash", "class": "rejected", "target": "overwrite-live-key", "last_idx": lastIdx, "dat_tail": tail},
+			r.Violation(lib.Sig{"op": "write-after-crash", "class": "rejected", "target": "overwrite-live-key", "order": order, "last_idx": lastIdx, "dat_tail": tail},
 				detail(map[string]interface{}{"error": oerr.Error(), "key": ow}))
 		} else {
 			answers[ow] = answer{class: "ok", data: ob.Data}
@@ -496,6 +572,10 @@ func (x *runner) image(d int64, j int) {
 			a := x.read(k)
 			r.Eval(1)
 			want := answers[k]
+			if want.class == "error" {
+				answers[k] = a // reported when it was first seen; follow the real state
+				continue
+			}
 			if a.class != want.class || !bytes.Equal(a.data, want.data) {
 				in := "nonempty"
 				if want.class == "ok" && len(want.data) == 0 {
@@ -505,7 +585,7 @@ func (x *runner) image(d int64, j int) {
 				if k == nk || k == ow {
 					cls = "new-write-not-served"
 				}
-				r.Violation(lib.Sig{"op": "read", "class": cls, "phase": phase, "input": in},
+				r.Violation(lib.Sig{"op": "read", "class": cls, "phase": phase, "input": in, "order": order},
 					detail(map[string]interface{}{"key": k, "expected_class": want.class, "expected_data": short(want.data),
 						"got_class": a.class, "got_data": short(a.data), "got_err": a.err}))
 				answers[k] = a
@@ -529,15 +609,17 @@ func (x *runner) image(d int64, j int) {
 	r.Eval(1)
 	v = x.store.GetVolume(1)
 	if err != nil || v == nil {
-		r.Violation(lib.Sig{"op": "reload", "class": "load-failed", "last_idx": lastIdx, "dat_tail": tail},
-			detail(map[string]interface{}{"error": fmt.Sprint(err)}))
+		r.Violation(loadSig("reload", "load-failed"), detail(map[string]interface{}{"error": fmt.Sprint(err)}))
 		return
 	}
 	if v.IsReadOnly() {
-		r.Violation(lib.Sig{"op": "reload", "class": "readonly-after-reload", "last_idx": lastIdx, "dat_tail": tail}, detail(map[string]interface{}{}))
+		r.Violation(loadSig("reload", "readonly-after-reload"), detail(map[string]interface{}{}))
 	}
 	check("after-reload")
 	r.Count("images_completed", 1)
+	if order == "index-ahead" {
+		r.Count("index_ahead_images_completed", 1)
+	}
 }
 
 func short(b []byte) string {
@@ -548,18 +630,34 @@ func short(b []byte) string {
 }
 
 // judgeRead decides one read after loading image (d, j).
-func (x *runner) judgeRead(k int, a answer, j, mfull int, phase string, detail func(map[string]interface{}) map[string]interface{}) {
+func (x *runner) judgeRead(k int, a answer, j, mfull int, creditNext bool, order, cut, phase string, detail func(map[string]interface{}) map[string]interface{}) {
 	r := x.r
 	r.Eval(1)
-	// allowed states: the one after op j, or any a later op (up to the last record that is
-	// completely in the data file) gave this key
-	allowed := []kstate{x.state[j][k]}
-	for i := j + 1; i <= mfull; i++ {
+	// "fully reached both files" = ops 1..min(j, m). Allowed states: that one, or any state a
+	// later op up to the last record completely in the data file gave this key; for an
+	// index-ahead image additionally the state of op m+1 when its record is in the file up to
+	// and including its checksum (only padding/timestamp bytes are missing)
+	b := j
+	if b > mfull {
+		b = mfull
+	}
+	allowed := []kstate{x.state[b][k]}
+	for i := b + 1; i <= mfull; i++ {
 		if x.h.Ops[i-1].K == k {
 			allowed = append(allowed, x.state[i][k])
 		}
 	}
-	base := x.state[j][k]
+	if j > mfull && creditNext && x.h.Ops[mfull].K == k {
+		allowed = append(allowed, x.state[mfull+1][k])
+	}
+	// in-flight ops whose index entry survived and whose effect needs no bytes from the data
+	// file (a tombstone, a zero-length write): either outcome is accepted
+	for i := mfull + 1; i <= j; i++ {
+		if o := x.h.Ops[i-1]; o.K == k && (o.Kind == "D" || o.Size == 0) {
+			allowed = append(allowed, x.state[i][k])
+		}
+	}
+	base := x.state[b][k]
 	input := "nonempty"
 	if base.kind == 1 && x.h.Ops[base.op-1].Size == 0 {
 		input = "empty-payload"
@@ -570,7 +668,7 @@ func (x *runner) judgeRead(k int, a answer, j, mfull int, phase string, detail f
 		extra["got_data"] = short(a.data)
 		extra["got_err"] = a.err
 		extra["model_state_after_j"] = fmt.Sprintf("%+v", base)
-		r.Violation(lib.Sig{"op": "read", "class": class, "phase": phase, "input": input, "ambiguous": fmt.Sprint(len(allowed) > 1)}, detail(extra))
+		r.Violation(lib.Sig{"op": "read", "class": class, "phase": phase, "input": input, "ambiguous": fmt.Sprint(len(allowed) > 1), "order": order, "cut": cut}, detail(extra))
 	}
 	switch a.class {
 	case "error":
@@ -612,39 +710,6 @@ func (x *runner) judgeRead(k int, a answer, j, mfull int, phase string, detail f
 		}
 		viol("corrupt-data", map[string]interface{}{})
 	}
-}
-
-// idxAhead loads an image whose index has one entry more than the data file has
-// complete records (possible only if the OS persisted the index append before the
-// data append). Outside the property's quantifier: outcomes are only counted.
-func (x *runner) idxAhead(d int64, j int) {
-	r := x.r
-	r.Case(map[string]interface{}{"history": x.h, "d": d, "j": j, "recorded_only": "index ahead of data"})
-	clearDir(x.dir)
-	r.Must(ioutil.WriteFile(filepath.Join(x.dir, "1.dat"), x.dat[:d], 0644), "write image dat")
-	r.Must(ioutil.WriteFile(filepath.Join(x.dir, "1.idx"), x.idx[:j*types.NeedleMapEntrySize], 0644), "write image idx")
-	if x.vif != nil {
-		r.Must(ioutil.WriteFile(filepath.Join(x.dir, "1.vif"), x.vif, 0644), "write image vif")
-	}
-	where := "record-missing"
-	switch {
-	case d == x.end[j-1]:
-	case x.end[j]-d <= 8:
-		where = "torn-in-last-8-bytes"
-	default:
-		where = "torn"
-	}
-	err := x.store.MountVolume(1)
-	v := x.store.GetVolume(1)
-	switch {
-	case err != nil || v == nil:
-		r.Count("recorded.idx_ahead."+where+".load_failed", 1)
-	case v.IsReadOnly():
-		r.Count("recorded.idx_ahead."+where+".readonly", 1)
-	default:
-		r.Count("recorded.idx_ahead."+where+".writable", 1)
-	}
-	x.cleanupVolume()
 }
 
 func (x *runner) cleanupVolume() {
@@ -705,9 +770,19 @@ func runHistory(r *lib.Run, h history, only *[2]int64) {
 				return
 			}
 		}
-		// outside the quantifier (index ahead of the data file): recorded, never decisive
-		if mfull < n && (boundary || (d-x.end[mfull])%9 == 1 || x.end[mfull+1]-d <= 12) {
-			x.idxAhead(d, mfull+1)
+		// index ahead of the data file (own image class "order=index-ahead"): one entry more
+		// than complete records at record boundaries, at every 9th byte of the next record and
+		// at each of its last 20 bytes (timestamp + padding); two entries more at boundaries
+		// and every 27th byte
+		if mfull < n && (boundary || (d-x.end[mfull])%9 == 1 || x.end[mfull+1]-d <= 20) {
+			x.image(d, mfull+1)
+			quietLog(r)
+			if mfull+2 <= n && (boundary || (d-x.end[mfull])%27 == 1) {
+				x.image(d, mfull+2)
+			}
+			if r.Violations() > 40 {
+				return
+			}
 		}
 	}
 	last := h.Ops[n-1]
@@ -722,7 +797,7 @@ func main() {
 		_ = pprof.StartCPUProfile(f)
 		defer pprof.StopCPUProfile()
 	}
-	r.SetRule("a case is a crash image (history, d, j): the .dat of a generated history (writes/overwrites/deletes over 4 keys, records of 40 B to 13 KiB, some zero-length payloads, tails ending in a tombstone / a tombstone followed by a write / a multi-page record) cut to d bytes and its .idx cut to j entries, j <= m = number of records completely inside d. d ranges over every record boundary and bytewise over the last 2 records (quick: 6 histories of 4-10 ops), the last 3 records (thorough: 10 histories of 4-12 ops) or all records (thorough: 2 histories of 4-8 ops; 2 more leveldb-map histories like the quick ones); records longer than 600 B are cut at every byte of their first 28 and last 40 bytes, 2 bytes around every 4 KiB page border and 24 seeded positions. j ranges over all 0..m (thorough memory-map histories; every boundary d in all tiers) or over {m, m-1, m-2, 0} for torn d (quick, leveldb histories). Each image is loaded by the real code, every key read and judged against the model states reachable between op j and the last complete record, a new key and an overwrite are written and read, the volume is reloaded and read again (in 'half' mode the second reload is done for boundary images and torn images with d+j even). distinct = distinct (history, d, j); non-trivial = every image except the clean one (d = full file, j = all entries)")
+	r.SetRule("a case is a crash image (history, d, j): the .dat of a generated history (writes/overwrites/deletes over 4 keys, records of 40 B to 13 KiB, some zero-length payloads, tails ending in a tombstone / a tombstone followed by a write / a multi-page record) cut to d bytes and its .idx cut to j entries, j <= m = number of records completely inside d. d ranges over every record boundary and bytewise over the last 2 records (quick: 6 histories of 4-10 ops), the last 3 records (thorough: 10 histories of 4-12 ops) or all records (thorough: 2 histories of 4-8 ops; 2 more leveldb-map histories like the quick ones); records longer than 600 B are cut at every byte of their first 28 and last 40 bytes, 2 bytes around every 4 KiB page border and 24 seeded positions. j ranges over all 0..m (thorough memory-map histories; every boundary d in all tiers) or over {m, m-1, m-2, 0} for torn d (quick, leveldb histories). Index-ahead images (own class, allowed by the statement's 'both files keep any prefix'): j = m+1 at every record boundary, every 9th byte of the next record and each of its last 20 bytes, j = m+2 at boundaries and every 27th byte; they are judged against the state after op m (op m+1's state is also accepted when its record is present up to its checksum). Each image is loaded by the real code, every key read and judged against the model states reachable between op j and the last complete record, a new key and an overwrite are written and read, the volume is reloaded and read again (in 'half' mode the second reload is done for boundary images and torn images with d+j even). distinct = distinct (history, d, j); non-trivial = every image except the clean one (d = full file, j = all entries)")
 	r.Assume("crash images are prefix truncations only (the quantifier's model): no sector reordering inside a record; .vif and super block intact; an .ldb directory is absent in the image (rebuilt from the .idx)")
 	r.Assume("images are loaded with Store.MountVolume on a long-lived Store (same NewVolume/load path as a fresh Store, without leaking a DiskLocation goroutine per image)")
 	r.Assume("a read answering not-found for a deleted key (or deleted for an absent one) is accepted: both mean 'no data'")
@@ -788,7 +863,8 @@ func main() {
 	// aggregate the per-worker counters
 	agg := map[string]int64{}
 	for _, name := range []string{"crash_images", "histories", "d_positions", "images_loaded_writable", "images_readonly",
-		"images_completed", "images_completed_without_second_reload", "writes_after_crash_ok", "overwrites_after_crash_ok", "reads_exact_content", "reads_gone_as_expected"} {
+		"images_completed", "images_completed_without_second_reload", "index_ahead_images", "index_ahead_images_readonly",
+		"index_ahead_images_completed", "writes_after_crash_ok", "overwrites_after_crash_ok", "reads_exact_content", "reads_gone_as_expected"} {
 		for w := 0; w < par; w++ {
 			agg[name] += r.Counter(fmt.Sprintf("w%d.%s", w, name))
 		}
@@ -805,17 +881,17 @@ func main() {
 			}
 		}
 	}
-	recorded := map[string]int64{}
-	for _, wh := range []string{"record-missing", "torn", "torn-in-last-8-bytes"} {
-		for _, oc := range []string{"writable", "readonly", "load_failed"} {
+	ahead := map[string]int64{}
+	for _, first := range []string{"write", "tombstone", "empty-write"} {
+		for _, cut := range []string{"record-missing", "cut-in-header", "cut-in-body", "cut-in-timestamp", "cut-in-padding"} {
 			for w := 0; w < par; w++ {
-				if c := r.Counter(fmt.Sprintf("w%d.recorded.idx_ahead.%s.%s", w, wh, oc)); c > 0 {
-					recorded[wh+"."+oc] += c
+				if c := r.Counter(fmt.Sprintf("w%d.ahead.first=%s,cut=%s", w, first, cut)); c > 0 {
+					ahead["first_ahead="+first+","+cut] += c
 				}
 			}
 		}
 	}
-	r.Note("recorded_only_index_ahead_of_data_images", recorded)
+	r.Note("index_ahead_images_by_class", ahead)
 	r.Note("totals", agg)
 	r.Note("images_by_class", classes)
 	r.Note("distinct_crash_images", agg["crash_images"])
